@@ -55,6 +55,10 @@ def run(ctx, factor):
             l["gap"] = max(l["gap"], 1)
             lines.append(l)
             addr += nb
+            if g.chance(0.2):
+                # byte-continuation lines, labels, blanks: contribute nothing, with the option as without it
+                lines.append(g.pick([{"k": "cont", "indent": 2, "addr": "%x" % addr, "bytes": "0102"},
+                                     {"k": "label", "addr": "%016x" % addr, "name": "lbl"}, {"k": "blank"}]))
         r = ctx.driver.call({"op": "linespec", "lines": lines})["ok"]
         text = r["text"]
         plain = r["expected"]
